@@ -770,7 +770,7 @@ static void do_cb_action(cfg_t *cbcfg)
 		int rc = cfg_parse_buf(it->second.cfg, "a = 3\n");
 		r.diags.resize(nd);
 		r.cbs.push_back("act parse_other ret=" + std::to_string(rc));
-	} else if (E->cb_act == "nested_parse") {
+	} else if (E->cb_act == "nested_parse" || E->cb_act == "nested_parse_refused") {
 		const json &plan = *E->plan;
 		int schema = 0;
 		auto self = E->ctxs.find(r.client * 1000 + r.ctx);
@@ -785,10 +785,10 @@ static void do_cb_action(cfg_t *cbcfg)
 			return;
 		cfg_set_error_function(t, sim_errfunc);
 		size_t nd = r.diags.size();
-		int rc = cfg_parse_buf(t, "a = 3\n");
+		int rc = cfg_parse_buf(t, E->cb_act == "nested_parse" ? "a = 3\n" : "= = nested text that is refused\n");
 		r.diags.resize(nd); // the temporary context's diagnostics are its own
 		cfg_free(t);
-		r.cbs.push_back("act nested_parse ret=" + std::to_string(rc));
+		r.cbs.push_back("act " + E->cb_act + " ret=" + std::to_string(rc));
 	}
 }
 
@@ -1260,6 +1260,7 @@ RunResult execute(const json &plan, const ExecOpts &opts)
 	const json knobs = plan.contains("knobs") ? plan["knobs"] : json::object();
 	W.fill = (unsigned char)(opts.fill_override >= 0 ? opts.fill_override : knobs.value("fill", 0xA5));
 	W.default_chunk = knobs.value("chunk", (size_t)0);
+	W.recycle_files = knobs.value("recycle", false);
 	W.op_alloc_budget = knobs.value("alloc_budget", (uint64_t)1000000);
 	ex.default_alloc_budget = W.op_alloc_budget;
 	W.op_read_budget = knobs.value("read_budget", (uint64_t)1000000);
@@ -1332,6 +1333,9 @@ RunResult execute(const json &plan, const ExecOpts &opts)
 		if (W.foreign_free)
 			ex.res.conservation.push_back("foreign-free x" + std::to_string(W.foreign_free));
 	}
+	if (W.stream_use_after_close)
+		ex.res.conservation.push_back("stream-use-after-close x" + std::to_string(W.stream_use_after_close));
+	ex.res.files_recycled = W.files_recycled;
 
 	std::sort(ex.res.conservation.begin(), ex.res.conservation.end());
 	ex.res.allocs_u1 = W.total_u1;
